@@ -5,7 +5,7 @@ import os, sys, json
 VERIF = os.path.dirname(os.path.dirname(os.path.abspath(__file__)))
 sys.path.insert(0, os.path.join(VERIF, "tools"))
 import verus_unit
-units = sorted(f[:-6] for f in os.listdir(os.path.join(VERIF, "contracts")) if f.endswith(".vspec"))
+units = sorted(f[:-6] for f in os.listdir(os.path.join(VERIF, "contracts")) if f.endswith(".vspec")) + ["derive"]   # `derive`: generated contract (tools/derive_unit.py)
 out = {}
 for u in units:
     r = verus_unit.run_unit(u)
